@@ -47,11 +47,13 @@ func (core *JApiCore) buildUserTypes() *jerr.JApiError {
 				core.userTypes.Set(k, jschema.New(k, v.BodyCoords.Read()))
 			}
 		case notation.SchemaNotationRegex:
-			var oo []regex.Option
-			if core.useFixedSeedForRegex {
-				oo = append(oo, regex.WithGeneratorSeed(0))
+			if v.BodyCoords.IsSet() {
+				var oo []regex.Option
+				if core.useFixedSeedForRegex {
+					oo = append(oo, regex.WithGeneratorSeed(0))
+				}
+				core.userTypes.Set(k, regex.New(k, v.BodyCoords.Read(), oo...))
 			}
-			core.userTypes.Set(k, regex.New(k, v.BodyCoords.Read(), oo...))
 		default:
 			// nothing
 		}
